@@ -607,8 +607,170 @@ async fn early_body(c: &EarlyCase) -> L2 {
   verdict
 }
 
+/// The ROUTER application addresses a peer frame by frame (identity frame with MORE, then the
+/// payload frames) while, between two of those frames, a *different* peer leaves or a new one
+/// joins: the addressed peer must still receive exactly that payload, and the next message too.
+#[derive(Clone, Debug, Serialize, Deserialize)]
+pub enum Bystander {
+  Nothing,
+  Leaves,
+  Joins,
+}
+
+#[derive(Clone, Debug, Serialize, Deserialize)]
+pub struct FragMsg {
+  pub target: u16,
+  pub shape: Vec<u8>,
+  /// the event happens after this many frames have been handed over (1 = after the identity)
+  pub after_frames: u8,
+  pub event: Bystander,
+}
+
+#[derive(Clone, Debug, Serialize, Deserialize)]
+pub struct FragCase {
+  pub transport: Transport,
+  pub rt: Rt,
+  pub mandatory: bool,
+  pub peers: u8,
+  pub msgs: Vec<FragMsg>,
+}
+
+async fn frag_body(c: &FragCase) -> L2 {
+  let ctx = match rzmq::Context::new() {
+    Ok(x) => x,
+    Err(e) => return L2::Inconclusive(e.to_string()),
+  };
+  let router = match ctx.socket(stack::stype("ROUTER")) {
+    Ok(s) => s,
+    Err(e) => return L2::Inconclusive(e.to_string()),
+  };
+  let mut ropts = vec![stack::i32opt(opt::RCVTIMEO, 1500), stack::i32opt(opt::SNDTIMEO, 3000)];
+  if c.mandatory {
+    ropts.push(stack::i32opt(opt::ROUTER_MANDATORY, 1));
+  }
+  if let Err(e) = stack::set_opts(&router, &ropts).await {
+    return L2::Inconclusive(e);
+  }
+  let rmon = match router.monitor_default().await {
+    Ok(m) => m,
+    Err(e) => return L2::Inconclusive(e.to_string()),
+  };
+  let ep = c.transport.fresh_endpoint();
+  if let Err(e) = router.bind(&ep).await {
+    return L2::Inconclusive(e.to_string());
+  }
+  let ep = if c.transport == Transport::Tcp {
+    match router.get_option(opt::LAST_ENDPOINT).await {
+      Ok(v) => String::from_utf8_lossy(&v).to_string(),
+      Err(e) => return L2::Inconclusive(e.to_string()),
+    }
+  } else {
+    ep
+  };
+  let v = |check: &str, d: String| L2::Violation(Violation::new(check, d).with("layer", "stack").with("transport", c.transport.name()).with("api", "frame_by_frame"));
+  let env = Case { transport: c.transport, rt: c.rt, mandatory: c.mandatory, auto_delimiter: true, peers: vec![], poll: false };
+  let spec = PeerSpec { req: false, id: IdKind::Absent, eager: false, shapes: vec![], reconnect: false };
+  let mut peers: Vec<Option<Live>> = Vec::new();
+  let mut next_label = 0u8;
+  // a peer connects, introduces itself, and the ROUTER takes note
+  async fn join(ctx: &rzmq::Context, env: &Case, ep: &str, spec: &PeerSpec, label: u8, router: &rzmq::Socket) -> Result<Live, String> {
+    let id = Some(vec![b'P', b'-', label, 0x7f]);
+    let p = connect_peer(ctx, env, ep, spec, &id, label, true).await?;
+    p.sock.send_multipart(to_msgs(&[vec![b'h', b'i', label]])).await.map_err(|e| e.to_string())?;
+    let f = router.recv_multipart().await.map_err(|e| format!("introduction of peer {} not received: {}", label, e))?;
+    if f.first().and_then(|m| m.data()).map(|d| d.to_vec()) != id {
+      return Err("introduction out of order".into());
+    }
+    Ok(p)
+  }
+  for _ in 0..c.peers {
+    match join(&ctx, &env, &ep, &spec, next_label, &router).await {
+      Ok(p) => peers.push(Some(p)),
+      Err(e) => return L2::Inconclusive(e),
+    }
+    next_label += 1;
+  }
+  for (mi, m) in c.msgs.iter().enumerate() {
+    let alive: Vec<usize> = (0..peers.len()).filter(|i| peers[*i].is_some()).collect();
+    if alive.is_empty() {
+      break;
+    }
+    let ti = alive[(m.target as usize * alive.len()) >> 16];
+    let (tid, tlabel) = {
+      let t = peers[ti].as_ref().unwrap();
+      (t.id.clone().unwrap(), t.label)
+    };
+    let payload = payload_frames(tlabel, mi as u8, &m.shape, b'D');
+    let mut wire = vec![tid.clone()];
+    wire.extend(payload.clone());
+    let frames = to_msgs(&wire);
+    let n = frames.len();
+    let after = (m.after_frames as usize).clamp(1, n - 1);
+    for (k, f) in frames.into_iter().enumerate() {
+      if k == after {
+        match m.event {
+          Bystander::Nothing => {}
+          Bystander::Leaves => {
+            if let Some(vi) = alive.iter().copied().find(|i| *i != ti) {
+              let victim = peers[vi].take().unwrap();
+              let _ = victim.sock.close().await;
+              // wait until the ROUTER has seen the detach
+              let _ = stack::wait_event(&rmon, Duration::from_millis(1500), |e| matches!(e, SocketEvent::Disconnected { .. })).await;
+              tokio::time::sleep(Duration::from_millis(120)).await;
+            }
+          }
+          Bystander::Joins => {
+            // the newcomer's introduction stays queued until the message in progress is out
+            let id = Some(vec![b'P', b'-', next_label, 0x7f]);
+            match connect_peer(&ctx, &env, &ep, &spec, &id, next_label, true).await {
+              Ok(p) => peers.push(Some(p)),
+              Err(e) => return L2::Inconclusive(e),
+            }
+            next_label += 1;
+          }
+        }
+      }
+      if let Err(e) = router.send(f).await {
+        return v("router_send_failed", format!("message {}: frame {} of {} of a frame-by-frame send to the live peer {} failed with {} (bystander event {:?} after frame {})", mi, k, n, tlabel, e, m.event, after));
+      }
+    }
+    let t = peers[ti].as_ref().unwrap();
+    match t.sock.recv_multipart().await {
+      Ok(fr) => {
+        let bodies: Vec<Vec<u8>> = fr.iter().map(|x| x.data().unwrap_or(&[]).to_vec()).collect();
+        if bodies != payload {
+          return v("payload_changed", format!("message {}: peer {} received frame lengths {:?}, the ROUTER application sent {:?} (bystander event {:?} after frame {})", mi, tlabel, bodies.iter().map(|f| f.len()).collect::<Vec<_>>(), payload.iter().map(|f| f.len()).collect::<Vec<_>>(), m.event, after));
+        }
+      }
+      Err(e) => return v("message_lost", format!("message {}: peer {} did not receive the message sent to it frame by frame: {} (bystander event {:?} after frame {})", mi, tlabel, e, m.event, after)),
+    }
+    // the next whole message to the same peer
+    let next = payload_frames(tlabel, 100 + mi as u8, &[6], b'D');
+    let mut wire = vec![tid];
+    wire.extend(next.clone());
+    if let Err(e) = router.send_multipart(to_msgs(&wire)).await {
+      return v("router_send_failed", format!("message {}: send_multipart to peer {} after the frame-by-frame send failed: {}", mi, tlabel, e));
+    }
+    match t.sock.recv_multipart().await {
+      Ok(fr) => {
+        let bodies: Vec<Vec<u8>> = fr.iter().map(|x| x.data().unwrap_or(&[]).to_vec()).collect();
+        if bodies != next {
+          return v("payload_changed", format!("message {}: the message after the frame-by-frame send reached peer {} as {:?}", mi, tlabel, bodies.iter().map(|f| f.len()).collect::<Vec<_>>()));
+        }
+      }
+      Err(e) => return v("message_lost", format!("message {}: the message after the frame-by-frame send did not reach peer {}: {}", mi, tlabel, e)),
+    }
+  }
+  for p in peers.iter().flatten() {
+    let _ = p.sock.close().await;
+  }
+  let _ = router.close().await;
+  stack::term(&ctx).await;
+  L2::Ok
+}
+
 pub fn run(run: &mut Run) {
-  run.rule = "cases = bound ROUTER (ROUTER_MANDATORY on/off, AUTO_DELIMITER on/off consistently on both ends) over tcp/ipc/inproc with 1..5 peers (DEALER, 30% REQ) whose routing ids are absent / 1 byte / 255 bytes / random / colliding with peer 0; each peer sends 1..3 payloads of 1..5 frames with empty frames in any position, the first one straight after connect() or after HandshakeSucceeded; ROUTER answers every reported identity; unknown identity; 20% of peers reconnect under the same identity. 35% of the cases poll the ROUTER with RCVTIMEO 0 from a second task while the peers connect; first_message_with_ready: 8..29 rounds of a raw DEALER that announces an identity and writes READY and its first message in one write while the ROUTER receives with RCVTIMEO in {0,1,20,-1}. Non-trivial = at least two peers and (an empty frame in a payload, or a first message before the identity event, or a reconnect/collision). Distinct = hash of the case".into();
+  run.rule = "cases = bound ROUTER (ROUTER_MANDATORY on/off, AUTO_DELIMITER on/off consistently on both ends) over tcp/ipc/inproc with 1..5 peers (DEALER, 30% REQ) whose routing ids are absent / 1 byte / 255 bytes / random / colliding with peer 0; each peer sends 1..3 payloads of 1..5 frames with empty frames in any position, the first one straight after connect() or after HandshakeSucceeded; ROUTER answers every reported identity; unknown identity; 20% of peers reconnect under the same identity. 35% of the cases poll the ROUTER with RCVTIMEO 0 from a second task while the peers connect; first_message_with_ready: 8..29 rounds of a raw DEALER that announces an identity and writes READY and its first message in one write while the ROUTER receives with RCVTIMEO in {0,1,20,-1}; frame_by_frame_send_with_bystanders: 2..4 DEALER peers, 1..3 messages of 1..5 frames sent with send() frame by frame to one of them while, after a generated frame, another peer leaves / a new peer joins / nothing happens, each followed by a send_multipart to the same peer. Non-trivial = at least two peers and (an empty frame in a payload, or a first message before the identity event, or a reconnect/collision). Distinct = hash of the case".into();
   run.assumptions = vec![
     "REQ sends single-frame requests; AUTO_DELIMITER is set the same way on both ends; with colliding identities only 'delivered to a peer that never announced that identity' counts".into(),
     "ROUTER-ROUTER peers are not generated".into(),
@@ -643,6 +805,18 @@ pub fn run(run: &mut Run) {
     });
     let r = run_l2(c.rt, Duration::from_secs(90), early_body(c));
     l2_result(run, "first_message_with_ready", r)
+  });
+  let frag_msg = (any::<u16>(), shape_strategy(), 1u8..5, prop_oneof![1 => Just(Bystander::Nothing), 3 => Just(Bystander::Leaves), 2 => Just(Bystander::Joins)])
+    .prop_map(|(target, shape, after_frames, event)| FragMsg { target, shape, after_frames, event });
+  let frag = (prop::sample::select(vec![Transport::Tcp, Transport::Ipc, Transport::Inproc]), prop::sample::select(vec![Rt::Current, Rt::Multi(2)]), any::<bool>(), 2u8..5, prop::collection::vec(frag_msg, 1..4))
+    .prop_map(|(transport, rt, mandatory, peers, msgs)| FragCase { transport, rt, mandatory, peers, msgs });
+  run.prop("frame_by_frame_send_with_bystanders", (n / 4).max(12), 6, 10, frag, |c, rec: &mut CaseRec| {
+    rec.nontrivial = c.msgs.iter().any(|m| !matches!(m.event, Bystander::Nothing));
+    rec.label(c.transport.name());
+    rec.label_if(c.msgs.iter().any(|m| matches!(m.event, Bystander::Leaves)), "another_peer_leaves_mid_message");
+    rec.label_if(c.msgs.iter().any(|m| matches!(m.event, Bystander::Joins)), "another_peer_joins_mid_message");
+    let r = run_l2(c.rt, Duration::from_secs(90), frag_body(c));
+    l2_result(run, "frame_by_frame_send_with_bystanders", r)
   });
   if run.undecided("envelopes") * 10 > n as u64 * 2 {
     run.inconclusive(format!("{} of {} cases could not be decided", run.undecided("envelopes"), n));
